@@ -44,6 +44,32 @@ Section Symm.
     exact (dist_le_EF g Hwf v s k Hv Hs H).
   Qed.
 
+  Lemma EB_EF_sym : forall v, v < length g -> EB g v = EF g v.
+  Proof.
+    intros v Hv. apply Nat.le_antisymm.
+    - destruct (EB_spec g Hwf v Hv) as [[w Hw] _]. apply is_dist_rev in Hw; [|exact Hsym].
+      destruct (EF_spec g Hwf v Hv) as [_ Hmax]. eapply Hmax. exact Hw.
+    - destruct (EF_spec g Hwf v Hv) as [[w Hw] _]. apply is_dist_rev in Hw; [|exact Hsym].
+      destruct (EB_spec g Hwf v Hv) as [_ Hmax]. eapply Hmax. exact Hw.
+  Qed.
+
+  (** triangle inequality through a pivot of the same component *)
+  Lemma pivot_bound : forall piv v, v < length g -> nth v piv 0 < length g ->
+    dget dm (nth v piv 0) v <> None -> EF g v <= pivot_value dm piv v.
+  Proof.
+    intros piv v Hv Hp Hd. unfold pivot_value. set (p := nth v piv 0) in *.
+    destruct (dget dm p v) as [a|] eqn:Ea; [|congruence]. cbn [odef].
+    apply (proj1 (dget_is_dist g Hwf p v a Hp Hv)) in Ea.
+    pose proof (is_dist_rev g p v a Hsym Ea) as Evp.
+    destruct (EF_spec g Hwf v Hv) as [[w Hw] _].
+    destruct Ea as [Wpv _]. destruct Evp as [Wvp _]. destruct Hw as [Wvw Hmin].
+    destruct (walk_min g p w _ (walk_app _ _ _ _ _ _ Wpv Wvw)) as [b Hb].
+    destruct (EF_spec g Hwf p Hp) as [_ Hmax]. pose proof (Hmax w b Hb) as Hle.
+    destruct Hb as [Wpw _].
+    pose proof (Hmin _ (walk_app _ _ _ _ _ _ Wvp Wpw)) as Htri.
+    change (ecc_f_dm dm p) with (EF g p). lia.
+  Qed.
+
   (** the arrays after a visit from [s], common to both kinds of visit *)
   Lemma sym_arrays : forall radial x s, s < length g -> inv_sym g radial x ->
     let lF' := upd (tab (length g) (low_upd (lF x) (uF x) (fun v => dget dm s v))) s (EF g s) in
@@ -53,7 +79,7 @@ Section Symm.
     (forall v, v < length g -> nth v lF' 0 <= EF g v <= nth v uF' 0) /\
     (forall v, v < length g -> nth v lF' 0 <= dL').
   Proof.
-    intros radial x s Hs I. destruct I as [[L1 L2] IF IdL Idv IlFd IrU Irv]. cbv zeta.
+    intros radial x s Hs I. destruct I as [[L1 L2] IF IdL Idv IlFd IrU Irv IR]. cbv zeta.
     assert (Hd : dL x <= if dL x <? EF g s then EF g s else dL x)
       by (destruct (dL x <? EF g s) eqn:E; [apply Nat.ltb_lt in E; lia | lia]).
     assert (He : EF g s <= if dL x <? EF g s then EF g s else dL x)
@@ -72,36 +98,22 @@ Section Symm.
       + pose proof (dist_le_EF g Hwf s v k Hs Hv Hk). lia.
   Qed.
 
-  Lemma fwd_step_inv_sym : forall radial s x, s < length g -> inv_sym g radial x ->
-    inv_sym g radial (fwd_step true dm radial s x).
+  (** in the symmetric variant the two kinds of visit are the same operation *)
+  Lemma bwd_fwd_sym : forall radial s order x,
+    bwd_step true dm radial s order x = fwd_step true dm radial s order x.
+  Proof. reflexivity. Qed.
+
+  Lemma fwd_step_inv_sym : forall radial s order x, s < length g ->
+    (forall v, v < length g -> dget dm s v <> None -> In v order) ->
+    inv_sym g radial x -> inv_sym g radial (fwd_step true dm radial s order x).
   Proof.
-    intros radial s x Hs I. pose proof (sym_arrays radial x s Hs I) as [HL [HF Hd]].
-    destruct I as [[L1 L2] IF IdL Idv IlFd IrU Irv].
+    intros radial s order x Hs Hcov I. pose proof (sym_arrays radial x s Hs I) as [HL [HF Hd]].
+    destruct I as [[L1 L2] IF IdL Idv IlFd IrU Irv IR].
     assert (Hdm : length dm = length g) by apply dist_matrix_length.
     assert (He : ecc_f_dm dm s = EF g s) by reflexivity.
     unfold fwd_step. cbn [bl bh]. rewrite Hdm, He.
-    constructor; cbn [lF uF lB uB dL dv rU rv].
-    - exact HL.
-    - exact HF.
-    - destruct (dL x <? EF g s); [apply EF_le_Dm; assumption | exact IdL].
-    - destruct (dL x <? EF g s) eqn:E; [split; [exact Hs | right; reflexivity] | exact Idv].
-    - exact Hd.
-    - intros r Hr. destruct (nth s radial false && (EF g s <? rU x)) eqn:E; [|apply IrU; exact Hr].
-      apply andb_true_iff in E. destruct E as [E1 _]. eapply radius_le_radial; eassumption.
-    - destruct (nth s radial false && (EF g s <? rU x)) eqn:E; [|exact Irv].
-      apply andb_true_iff in E. destruct E as [E1 _]. right. repeat split; assumption.
-  Qed.
-
-  Lemma bwd_step_inv_sym : forall radial s order x, s < length g -> inv_sym g radial x ->
-    inv_sym g radial (bwd_step true dm radial s order x).
-  Proof.
-    intros radial s order x Hs I. pose proof (sym_arrays radial x s Hs I) as [HL [HF Hd]].
-    destruct I as [[L1 L2] IF IdL Idv IlFd IrU Irv].
-    assert (Hdm : length dm = length g) by apply dist_matrix_length.
-    assert (He : becc true dm s = EF g s) by reflexivity.
-    unfold bwd_step. rewrite Hdm, He.
     set (dist := fun v => dget dm s v).
-    change (bdist true dm s) with dist.
+    set (r := fold_left (rad_visit x radial dist) order (rU x, rv x)).
     assert (Hclosed : forall v k, rcond x radial dist v k -> v < length g /\ EF g v = k).
     { intros v k [Hk [_ [_ [Heq _]]]].
       assert (Hv : v < length g).
@@ -109,58 +121,190 @@ Section Symm.
         rewrite (nth_overflow (nth s dm [])) in Hk; [discriminate|].
         unfold dm. rewrite dist_row_nth by exact Hs. rewrite dist_row_length. exact Hv. }
       split; [exact Hv|]. pose proof (dist_le_EF_sym s v k Hs Hv Hk). specialize (IF v Hv). lia. }
+    assert (Hrle : fst r <= rU x) by (apply (rad_fold_le g Hn x radial dist order (rU x, rv x))).
+    assert (HrR : forall r0, radius_from (eccs_f (dist_matrix g)) radial = Some r0 -> r0 <= fst r).
+    { intros r0 Hr0. unfold r.
+      destruct (rad_fold_witness x radial dist order (rU x, rv x)) as [H|[v [k [Hc H]]]]; rewrite H; cbn [fst].
+      - apply IrU. exact Hr0.
+      - destruct (Hclosed v k Hc) as [Hv Hk]. rewrite <- Hk.
+        eapply radius_le_radial; [exact Hr0 | exact Hv | apply Hc]. }
+    assert (Hrv : fst r = length g / 2 + 1 \/
+                  (snd r < length g /\ nth (snd r) radial false = true /\ EF g (snd r) = fst r)).
+    { unfold r.
+      destruct (rad_fold_witness x radial dist order (rU x, rv x)) as [H|[v [k [Hc H]]]]; rewrite H; cbn [fst snd].
+      - exact Irv.
+      - destruct (Hclosed v k Hc) as [Hv Hk]. right. split; [exact Hv|]. split; [apply Hc | exact Hk]. }
     constructor; cbn [lF uF lB uB dL dv rU rv].
     - exact HL.
     - exact HF.
     - destruct (dL x <? EF g s); [apply EF_le_Dm; assumption | exact IdL].
     - destruct (dL x <? EF g s) eqn:E; [split; [exact Hs | right; reflexivity] | exact Idv].
     - exact Hd.
-    - intros r0 Hr0. destruct (rad_fold_witness x radial dist order (rU x, rv x)) as [H|[v [k [Hc H]]]]; rewrite H; cbn [fst].
+    - intros r0 Hr0. destruct (nth s radial false && (EF g s <? fst r)) eqn:E; [|apply HrR; exact Hr0].
+      apply andb_true_iff in E. destruct E as [E1 _]. eapply radius_le_radial; eassumption.
+    - destruct (nth s radial false && (EF g s <? fst r)) eqn:E; [|exact Hrv].
+      apply andb_true_iff in E. destruct E as [E1 _]. right. repeat split; assumption.
+    - intros v Hv Hrad.
+      assert (Hnew : (if nth s radial false && (EF g s <? fst r) then EF g s else fst r) <= fst r).
+      { destruct (nth s radial false && (EF g s <? fst r)) eqn:E; [|lia].
+        apply andb_true_iff in E. destruct E as [_ E]. apply Nat.ltb_lt in E. lia. }
+      rewrite !upd_nth by (rewrite ?tab_length; lia). destruct (v =? s) eqn:E.
+      + apply Nat.eqb_eq in E. subst v. intros _. rewrite Hrad. cbn [andb].
+        destruct (EF g s <? fst r) eqn:E2; [lia | apply Nat.ltb_ge in E2; lia].
+      + rewrite tab_nth by exact Hv. intros Heq.
+        destruct (low_upd_cases (lF x) (uF x) dist v) as [H|[k [Hk [H [Hne Hlt]]]]]; rewrite H in *.
+        * specialize (IR v Hv Hrad Heq). lia.
+        * assert (Hc : rcond x radial dist v k) by (unfold rcond; repeat split; assumption).
+          assert (fst r <= k); [|lia].
+          apply (rad_fold_covers g Hn x radial dist order (rU x, rv x) v k); [|exact Hc].
+          apply Hcov; [exact Hv|]. unfold dist in Hk. rewrite Hk. discriminate.
+  Qed.
+
+  (** ---- the SCC step ---- *)
+  Definition acond (x : st) (radial : list bool) (pv : nat -> nat) (v : nat) : Prop :=
+    Nat.min (pv v) (nth v (uF x) 0) = nth v (lF x) 0 /\ nth v radial false = true.
+
+  Lemma allcc_visit_cases : forall x radial pv acc v,
+    allcc_visit x radial pv acc v = acc \/
+    (acond x radial pv v /\ allcc_visit x radial pv acc v = (nth v (lF x) 0, v)).
+  Proof.
+    intros x radial pv acc v. unfold allcc_visit.
+    destruct ((Nat.min (pv v) (nth v (uF x) 0) =? nth v (lF x) 0) && nth v radial false &&
+              (Nat.min (pv v) (nth v (uF x) 0) <? fst acc)) eqn:E; [|left; reflexivity].
+    right. apply andb_true_iff in E. destruct E as [E _]. apply andb_true_iff in E. destruct E as [E1 E2].
+    apply Nat.eqb_eq in E1. split; [split; assumption|]. rewrite E1. reflexivity.
+  Qed.
+
+  Lemma allcc_fold_le : forall x radial pv order acc,
+    fst (fold_left (allcc_visit x radial pv) order acc) <= fst acc.
+  Proof.
+    intros x radial pv order. induction order as [|v order IH]; intros acc; cbn [fold_left]; [lia|].
+    specialize (IH (allcc_visit x radial pv acc v)).
+    assert (fst (allcc_visit x radial pv acc v) <= fst acc); [|lia].
+    unfold allcc_visit.
+    destruct ((Nat.min (pv v) (nth v (uF x) 0) =? nth v (lF x) 0) && nth v radial false &&
+              (Nat.min (pv v) (nth v (uF x) 0) <? fst acc)) eqn:E; [|lia].
+    apply andb_true_iff in E. destruct E as [_ E]. apply Nat.ltb_lt in E. cbn [fst]. lia.
+  Qed.
+
+  Lemma allcc_fold_covers : forall x radial pv order acc v, In v order -> acond x radial pv v ->
+    fst (fold_left (allcc_visit x radial pv) order acc) <= nth v (lF x) 0.
+  Proof.
+    intros x radial pv order. induction order as [|w order IH]; intros acc v Hin Hc; [destruct Hin|].
+    cbn [fold_left]. destruct Hin as [->|Hin]; [|eapply IH; eassumption].
+    pose proof (allcc_fold_le x radial pv order (allcc_visit x radial pv acc v)) as Hle.
+    assert (fst (allcc_visit x radial pv acc v) <= nth v (lF x) 0); [|lia].
+    unfold allcc_visit. destruct Hc as [Hmin Hrad]. rewrite Hmin, Hrad, Nat.eqb_refl. cbn [andb].
+    destruct (nth v (lF x) 0 <? fst acc) eqn:E; [cbn [fst]; lia | apply Nat.ltb_ge in E; exact E].
+  Qed.
+
+  Lemma allcc_fold_witness : forall x radial pv order acc,
+    fold_left (allcc_visit x radial pv) order acc = acc \/
+    exists v, In v order /\ acond x radial pv v /\
+              fold_left (allcc_visit x radial pv) order acc = (nth v (lF x) 0, v).
+  Proof.
+    intros x radial pv order. induction order as [|w order IH]; intros acc; cbn [fold_left]; [left; reflexivity|].
+    destruct (IH (allcc_visit x radial pv acc w)) as [H|[v [Hin H]]].
+    - rewrite H. destruct (allcc_visit_cases x radial pv acc w) as [H'|[Hc H']]; [left; exact H'|].
+      right. exists w. split; [left; reflexivity|]. split; assumption.
+    - right. exists v. split; [right; exact Hin | exact H].
+  Qed.
+
+  Lemma allcc_step_inv_sym : forall radial piv order x,
+    (forall v, v < length g -> nth v piv 0 < length g /\ dget dm (nth v piv 0) v <> None) ->
+    (forall v, In v order <-> v < length g) ->
+    inv_sym g radial x -> inv_sym g radial (allcc_sym_step dm radial piv order x).
+  Proof.
+    intros radial piv order x Hpiv Hcov I.
+    destruct I as [[L1 L2] IF IdL Idv IlFd IrU Irv IR].
+    assert (Hdm : length dm = length g) by apply dist_matrix_length.
+    unfold allcc_sym_step. rewrite Hdm.
+    set (pv := pivot_value dm piv).
+    set (r := fold_left (allcc_visit x radial pv) order (rU x, rv x)).
+    assert (Hub : forall v, v < length g -> EF g v <= Nat.min (pv v) (nth v (uF x) 0)).
+    { intros v Hv. destruct (Hpiv v Hv) as [Hp Hd]. pose proof (pivot_bound piv v Hv Hp Hd).
+      specialize (IF v Hv). unfold pv. lia. }
+    (* a radial vertex whose bounds meet here has its eccentricity known *)
+    assert (Hclosed : forall v, v < length g -> acond x radial pv v -> EF g v = nth v (lF x) 0).
+    { intros v Hv [Hmin _]. specialize (Hub v Hv). specialize (IF v Hv). lia. }
+    constructor; cbn [lF uF lB uB dL dv rU rv].
+    - rewrite tab_length. split; [exact L1 | reflexivity].
+    - intros v Hv. rewrite tab_nth by exact Hv. split; [apply IF; exact Hv | apply Hub; exact Hv].
+    - exact IdL.
+    - exact Idv.
+    - exact IlFd.
+    - intros r0 Hr0. unfold r.
+      destruct (allcc_fold_witness x radial pv order (rU x, rv x)) as [H|[v [Hin [Hc H]]]]; rewrite H; cbn [fst].
       + apply IrU. exact Hr0.
-      + destruct (Hclosed v k Hc) as [Hv Hk]. rewrite <- Hk.
-        eapply radius_le_radial; [exact Hr0 | exact Hv | apply Hc].
-    - destruct (rad_fold_witness x radial dist order (rU x, rv x)) as [H|[v [k [Hc H]]]]; rewrite H; cbn [fst snd].
+      + apply Hcov in Hin. rewrite <- (Hclosed v Hin Hc).
+        eapply radius_le_radial; [exact Hr0 | exact Hin | apply Hc].
+    - unfold r.
+      destruct (allcc_fold_witness x radial pv order (rU x, rv x)) as [H|[v [Hin [Hc H]]]]; rewrite H; cbn [fst snd].
       + exact Irv.
-      + destruct (Hclosed v k Hc) as [Hv Hk]. right. split; [exact Hv|]. split; [apply Hc | exact Hk].
+      + apply Hcov in Hin. right. split; [exact Hin|]. split; [apply Hc | apply Hclosed; assumption].
+    - intros v Hv Hrad. rewrite tab_nth by exact Hv. intros Heq.
+      apply (allcc_fold_covers x radial pv order (rU x, rv x) v); [apply Hcov; exact Hv|].
+      split; [symmetry; exact Heq | exact Hrad].
   Qed.
 End Symm.
 
+Theorem symm_ecc : S_symm_ecc.
+Proof. intros g v Hwf Hn Hsym Hv. apply EB_EF_sym; assumption. Qed.
+
+Theorem symm_pivot_bound : S_symm_pivot_bound.
+Proof. intros g piv v Hwf Hn Hsym Hv Hp Hd. apply pivot_bound; assumption. Qed.
+
 Theorem symm_step_invariant : S_symm_step_invariant.
 Proof.
-  intros g radial [s|s order] x Hwf Hn Hsym Hl I; cbn [step pivot_lt] in *.
-  - apply fwd_step_inv_sym; assumption.
-  - apply bwd_step_inv_sym; assumption.
+  intros g radial [s order|s order|piv order] x Hwf Hn Hsym Hl I; cbn [step legal_op_sym] in *.
+  - destruct Hl as [Hs Hcov]. apply fwd_step_inv_sym; assumption.
+  - destruct Hl as [Hs Hcov]. rewrite bwd_fwd_sym. apply fwd_step_inv_sym; assumption.
+  - destruct Hl as [Hp Hcov]. apply allcc_step_inv_sym; assumption.
 Qed.
 
-Theorem symm_run_invariant : S_symm_run_invariant.
+Lemma symm_run_from : forall g radial ops x, wf_graph g = true -> 0 < length g -> symmetric_graph g ->
+  Forall (legal_op_sym g) ops -> inv_sym g radial x ->
+  inv_sym g radial (run_ops true (dist_matrix g) radial ops x).
 Proof.
-  intros g radial ops Hwf Hn Hsym Hl Hr.
-  assert (I0 : inv_sym g radial (init_st (length g) true)).
-  { constructor; cbn [init_st lF uF lB uB dL dv rU rv rU_init].
-    - rewrite !tab_length. split; reflexivity.
-    - intros v Hv. rewrite !tab_nth by exact Hv. pose proof (EF_lt_n g Hwf Hn v Hv). lia.
-    - lia.
-    - split; [exact Hn | left; reflexivity].
-    - intros v Hv. rewrite tab_nth by exact Hv. lia.
-    - exact Hr.
-    - left. reflexivity. }
-  revert I0. generalize (init_st (length g) true).
+  intros g radial ops x Hwf Hn Hsym Hl. revert x.
   induction ops as [|o ops IH]; intros x I; cbn [run_ops fold_left]; [exact I|].
   inversion Hl as [|o' ops' Ho Hops]; subst. apply IH; [exact Hops|].
   apply symm_step_invariant; assumption.
 Qed.
 
+Theorem symm_run_invariant : S_symm_run_invariant.
+Proof.
+  intros g radial ops Hwf Hn Hsym Hl Hr. apply symm_run_from; try assumption.
+  constructor; cbn [init_st lF uF lB uB dL dv rU rv rU_init].
+  - rewrite !tab_length. split; reflexivity.
+  - intros v Hv. rewrite !tab_nth by exact Hv. pose proof (EF_lt_n g Hwf Hn v Hv). lia.
+  - lia.
+  - split; [exact Hn | left; reflexivity].
+  - intros v Hv. rewrite tab_nth by exact Hv. lia.
+  - exact Hr.
+  - left. reflexivity.
+  - intros v Hv _ H. rewrite !tab_nth in H by exact Hv. lia.
+Qed.
+
+(** the forward part of the symmetric invariant is an instance of the directed one, with the
+    forward arrays standing for the backward ones *)
 Theorem symm_exit_exact : S_symm_exit_exact.
 Proof.
-  intros g radial l x Hwf Hn I H. split; [|apply I].
+  intros g radial l x Hwf Hn Hsym I HR H.
   set (n := length g) in *. set (m := find_missing true n radial x) in *.
   set (o := output true n radial x). set (dm := dist_matrix g).
-  destruct I as [[L1 L2] IF IdL [Hdv Idv] IlFd IrU Irv].
+  destruct I as [[L1 L2] IF IdL [Hdv Idv] IlFd IrU Irv IR].
   assert (Heccf : m_af m = 0 -> check_eccf dm o = true).
   { intros Ha. unfold check_eccf. apply list_eqb_eq. cbn [o output o_eccf].
     apply list_ext_nth; [unfold dm; rewrite eccs_f_length; exact L1|].
     intros v Hv. rewrite L1 in Hv. unfold dm. rewrite eccs_f_nth by exact Hv.
     pose proof (incF_false x v (count_zero _ _ Ha v Hv)). specialize (IF v Hv). unfold EF in IF. lia. }
+  assert (Heccb : m_af m = 0 -> check_eccb dm o = true).
+  { intros Ha. unfold check_eccb. apply list_eqb_eq. cbn [o output o_eccb].
+    apply list_ext_nth; [unfold dm; rewrite eccs_b_length; exact L1|].
+    intros v Hv. rewrite L1 in Hv. unfold dm. rewrite eccs_b_nth by exact Hv.
+    pose proof (incF_false x v (count_zero _ _ Ha v Hv)). specialize (IF v Hv).
+    pose proof (symm_ecc g v Hwf Hn Hsym Hv) as Heb. unfold EF, EB in *. lia. }
   assert (Hdiam : m_df m = 0 -> check_diam dm o = true /\ check_dv dm o = true).
   { intros Hd.
     assert (Hle : Dm g <= dL x).
@@ -177,15 +321,90 @@ Proof.
     apply andb_true_iff. split; [apply Nat.ltb_lt; unfold dm; rewrite dist_matrix_length; exact Hdv|].
     apply orb_true_iff. left. apply Nat.eqb_eq. destruct Idv as [H0|H1]; [|exact H1].
     pose proof (EF_le_Dm g Hwf Hn (dv x) Hdv). unfold EF, dm in *. lia. }
+  (* the radius *)
+  assert (HrUle : m_r m = 0 -> forall r, radius_from (eccs_f dm) radial = Some r -> rU x <= r).
+  { intros Hm r Er. pose proof Er as Er'. apply radius_from_some in Er'.
+    destruct Er' as [[i [Hi [Hrad Hnth]]] _]. unfold dm in Hi. rewrite eccs_f_length in Hi.
+    unfold dm in Hnth. rewrite eccs_f_nth in Hnth by exact Hi.
+    pose proof (count_zero _ _ Hm i Hi) as Hc. cbn beta in Hc. rewrite Hrad in Hc.
+    specialize (IF i Hi). unfold EF in IF.
+    rewrite andb_true_r in Hc. apply andb_false_iff in Hc. destruct Hc as [Hc|Hc].
+    - apply incF_false in Hc. specialize (IR i Hi Hrad Hc). lia.
+    - apply Nat.ltb_ge in Hc. lia. }
+  assert (Hnorad : no_radial n radial = true <-> radius_from (eccs_f dm) radial = None).
+  { unfold no_radial. rewrite forallb_forall, radius_from_none. unfold dm. rewrite eccs_f_length. split.
+    - intros Hx i Hi. specialize (Hx i). rewrite negb_true_iff in Hx. apply Hx. apply in_seq. unfold n. lia.
+    - intros Hx i Hi. apply in_seq in Hi. apply negb_true_iff. apply Hx. unfold n in Hi. lia. }
+  assert (Hrad : m_r m = 0 -> check_rad dm radial o = true /\ check_rv dm radial o = true).
+  { intros Hm. unfold check_rad, check_rv. cbn [o output o_rad o_rv].
+    destruct (no_radial n radial) eqn:En.
+    - rewrite (proj1 Hnorad eq_refl). split; reflexivity.
+    - destruct (radius_from (eccs_f dm) radial) as [r|] eqn:Er; [|discriminate (proj2 Hnorad eq_refl)].
+      pose proof (HrUle Hm r eq_refl) as Hle. pose proof (IrU r Er) as Hge. pose proof (HR r Er) as Hhalf.
+      split; [apply Nat.eqb_eq; lia|].
+      destruct Irv as [Hi|[Hv [Hrd He]]]; [fold n in Hi; lia|].
+      rewrite Hrd. unfold dm. rewrite dist_matrix_length. apply andb_true_iff. split.
+      + apply andb_true_iff. split; [apply Nat.ltb_lt; exact Hv | reflexivity].
+      + apply Nat.eqb_eq. exact He. }
   assert (Hdb : m_db m = m_df m) by reflexivity.
   assert (Hab : m_ab m = m_af m) by reflexivity.
   assert (Haf_df : m_af m = 0 -> m_df m = 0).
   { intros Ha. apply count_zero_intro. intros v Hv. rewrite (count_zero _ _ Ha v Hv). reflexivity. }
-  unfold check_values_symm.
-  destruct l; cbn [missing_nodes] in H; cbn [wants_eccf wants_diam negb orb andb].
-  - assert (Ha : m_af m = 0) by lia. destruct (Hdiam (Haf_df Ha)) as [H1 H2]. rewrite (Heccf Ha), H1, H2. reflexivity.
-  - destruct (Hdiam (Haf_df H)) as [H1 H2]. rewrite (Heccf H), H1, H2. reflexivity.
-  - rewrite Hdb, Nat.min_id in H. assert (Hd : m_df m = 0) by lia. destruct (Hdiam Hd) as [H1 H2]. rewrite H1, H2. reflexivity.
+  assert (Haf_r : m_af m = 0 -> m_r m = 0).
+  { intros Ha. apply count_zero_intro. intros v Hv. rewrite (count_zero _ _ Ha v Hv). reflexivity. }
+  unfold check_ess_dm.
+  destruct l; cbn [missing_nodes] in H; cbn [wants_eccf wants_eccb wants_diam wants_rad negb orb andb].
+  - assert (Ha : m_af m = 0) by lia. destruct (Hdiam (Haf_df Ha)) as [H1 H2]. destruct (Hrad (Haf_r Ha)) as [H3 H4].
+    rewrite (Heccf Ha), (Heccb Ha), H1, H2, H3, H4. reflexivity.
+  - destruct (Hdiam (Haf_df H)) as [H1 H2]. destruct (Hrad (Haf_r H)) as [H3 H4].
+    rewrite (Heccf H), H1, H2, H3, H4. reflexivity.
+  - rewrite Hdb, Nat.min_id in H. assert (Hd : m_df m = 0) by lia. assert (Hm : m_r m = 0) by lia.
+    destruct (Hdiam Hd) as [H1 H2]. destruct (Hrad Hm) as [H3 H4]. rewrite H1, H2, H3, H4. reflexivity.
   - rewrite Hdb, Nat.min_id in H. destruct (Hdiam H) as [H1 H2]. rewrite H1, H2. reflexivity.
-  - reflexivity.
+  - destruct (Hrad H) as [H3 H4]. rewrite H3, H4. reflexivity.
+Qed.
+
+Theorem symm_machine_exact : S_symm_machine_exact.
+Proof.
+  intros g radial ops l Hwf Hn Hsym Hl HR Hz. unfold replay in *. cbn [fst snd] in *.
+  unfold check_ess. apply symm_exit_exact; try assumption.
+  apply symm_run_invariant; try assumption.
+  intros r Hr. specialize (HR r Hr). lia.
+Qed.
+
+(** ---- the pivots of the model of [find_best_pivot] ---- *)
+Lemma pick_fold_in : forall bt l p,
+  match fold_left (pick bt) l p with
+  | Some q => In q l \/ p = Some q
+  | None => l = [] /\ p = None
+  end.
+Proof.
+  intros bt l. induction l as [|w l IH]; intros p; cbn [fold_left].
+  - destruct p; [right; reflexivity | split; reflexivity].
+  - specialize (IH (pick bt p w)). destruct (fold_left (pick bt) l (pick bt p w)) as [q|].
+    + destruct IH as [IH|IH]; [left; right; exact IH|].
+      unfold pick in IH. destruct p as [q0|].
+      * destruct (bt w q0); injection IH as <-; [left; left; reflexivity | right; reflexivity].
+      * injection IH as <-. left. left. reflexivity.
+    + destruct IH as [_ IH]. unfold pick in IH. destruct p as [q0|]; [|discriminate].
+      destruct (bt w q0); discriminate.
+Qed.
+
+Theorem best_pivots_legal : S_best_pivots_legal.
+Proof.
+  intros g use_tot tot x v Hwf Hsym Hv. cbv zeta. unfold best_pivots. rewrite tab_nth by exact Hv.
+  set (L := filter (fun w => reaches (dist_matrix g) v w) (rev (seq 0 (length g)))).
+  assert (HvL : In v L).
+  { apply filter_In. split; [apply in_rev; rewrite rev_involutive; apply in_seq; lia|].
+    unfold reaches.
+    rewrite (proj2 (dget_is_dist g Hwf v v 0 Hv Hv) (is_dist_self g v)). reflexivity. }
+  set (bt := better use_tot (tab (length g) (pivot_score true (length g) x)) tot).
+  pose proof (pick_fold_in bt L None) as Hp.
+  destruct (fold_left (pick bt) L None) as [q|].
+  - cbn [odef]. destruct Hp as [Hp|Hp]; [|discriminate].
+    apply filter_In in Hp. destruct Hp as [Hq Hr]. apply in_rev in Hq. rewrite ?rev_involutive in Hq.
+    apply in_seq in Hq. assert (Hql : q < length g) by lia. split; [exact Hql|].
+    rewrite <- (symm_dist g v q Hwf Hsym Hv Hql). unfold reaches in Hr.
+    destruct (dget (dist_matrix g) v q); [discriminate | discriminate Hr].
+  - destruct Hp as [Hp _]. rewrite Hp in HvL. destruct HvL.
 Qed.
